@@ -14,6 +14,7 @@ machine of `lib/util/src/threadpool.c`).  Every theorem quantifies over
 There is no bound anywhere: the obligations are inductions over the length of the execution.
 -/
 import Sqfs.Proofs.Pool
+import Sqfs.Proofs.C09PoolX
 namespace Sqfs.C09
 open Sqfs.Pool List
 
@@ -629,6 +630,163 @@ theorem refines_serial_prefix {cfg : Cfg} {n : Nat} {s : State} (hok : ∀ d, cf
   obtain ⟨cdone, h1, h2, _⟩ := invR_reachable hok hr
   exact ⟨cdone, h1, h2.symm⟩
 
+/-! ### beyond the base model: the per-worker user pointer, `set_worker_ptr`, `calloc` failure in `submit`
+
+`Model/C09PoolX.lean` adds `pool->workers[i].user`, `set_worker_ptr`, the pointer `worker_proc` hands to the
+callback and the allocation-failure return of `submit` on top of the base model.  `XReachable cfg n xs` = some
+finite list of extended scheduler choices leads from `xinit n` to `xs`. -/
+
+/-- **Extended executions are base executions.**  The base component of every state an extended execution
+reaches is reachable in the base model — so every theorem above (`fifo`, `at_most_once`, `no_deadlock`, …) holds
+of it, whatever `set_worker_ptr` calls and failed allocations are interleaved. -/
+theorem x_projects {cfg : Cfg} {n : Nat} {xs : XState} (hr : XReachable cfg n xs) : Reachable cfg n xs.base :=
+  xreachable_base hr
+
+/-- executions of the extended model as literal lists of choices -/
+theorem xrun_reachable (cfg : Cfg) (n : Nat) (cs : List XChoice) : XReachable cfg n (xrun cfg (xinit n) cs) := by
+  suffices h : ∀ xs, XReachable cfg n xs → XReachable cfg n (xrun cfg xs cs) from h _ .init
+  induction cs with
+  | nil => intro xs hxs; exact hxs
+  | cons c cs ih =>
+    intro xs hxs
+    unfold xrun
+    split
+    · rename_i xs' hstep
+      exact ih xs' (.step c hxs hstep)
+    · exact ih xs hxs
+
+/-- **No two workers use the same per-worker context at the same time.**  Usage discipline (what the block
+processor does, block_processor.c `set_worker_ptr(i, worker_i)` with one `worker_data_t` per worker): every
+non-NULL pointer ever passed to `set_worker_ptr` belongs to one worker (`own p`).  Then in every state of every
+execution — `set_worker_ptr` may be called at any time, also while callbacks run, any number of times — the
+contexts two distinct workers' running callbacks are using are different.  (`ctxInUse xs i` is the pointer
+worker `i` read from its own `user` field when it entered the callback it is in.) -/
+theorem ctx_exclusive_users {cfg : Cfg} {n : Nat} {xs : XState} (own : Nat → Nat) (hr : XReachable cfg n xs)
+    (hd : ∀ i p, XEvent.setPtr i p ∈ xs.log → p ≠ 0 → own p = i) (i j p q : Nat) (hij : i ≠ j)
+    (hi : ctxInUse xs i = some p) (hj : ctxInUse xs j = some q) (hp : p ≠ 0) : p ≠ q := by
+  have hX := invX_reachable own hr hd
+  intro hpq
+  have h1 : xs.ctxAt[i]? = some p := by
+    unfold ctxInUse at hi; split at hi
+    · exact hi
+    · simp at hi
+  have h2 : xs.ctxAt[j]? = some q := by
+    unfold ctxInUse at hj; split at hj
+    · exact hj
+    · simp at hj
+  have e1 := hX.ctxAt i p h1 hp
+  have e2 := hX.ctxAt j q h2 (by rw [← hpq]; exact hp)
+  rw [← hpq] at e2
+  exact hij (e1.symm.trans e2)
+
+/-- a context is in use exactly while its worker is inside the callback, and it is the value the worker's
+`user` field had when the callback was entered: entering the callback (the step in which worker `i` takes an
+item from the queue) reads `users[i]`, logs the `enter` event with it, and leaves every other worker's context
+alone -/
+theorem ctx_read_at_entry {cfg : Cfg} {n : Nat} {xs xs' : XState} (hr : XReachable cfg n xs) (i : Nat) (spur : Bool)
+    (it : Item) (hs : xstep cfg xs (.base (.worker i spur)) = some xs')
+    (hold : ∀ it', xs.base.workers[i]? ≠ some (.working it'))
+    (hnew : xs'.base.workers[i]? = some (.working it)) :
+    ctxInUse xs' i = some (xs.users.getD i 0) ∧
+    xs'.log = xs.log ++ [.enter i (xs.users.getD i 0) it.data] ∧
+    xs'.users = xs.users ∧ ∀ j, j ≠ i → xs'.ctxAt[j]? = xs.ctxAt[j]? := by
+  obtain ⟨_, hlc, hlw⟩ := xlens_reachable hr
+  have hi : i < xs.ctxAt.length := by
+    have := (List.getElem?_eq_some_iff.1 hnew).1
+    have hl := step_length cfg (.worker i spur) (s := xs.base) (s' := xs'.base)
+    simp only [xstep] at hs
+    unfold xstepWorker at hs
+    split at hs
+    · simp at hs
+    · rename_i b' hb
+      have hb' : xs'.base = b' := by
+        split at hs
+        · simp only [Option.some.injEq] at hs; subst hs; rfl
+        · split at hs <;> (simp only [Option.some.injEq] at hs; subst hs; rfl)
+      rw [hb'] at hl this
+      have := hl (by simp only [step]; exact hb)
+      omega
+  simp only [xstep] at hs
+  unfold xstepWorker at hs
+  split at hs
+  · simp at hs
+  · split at hs
+    · rename_i it' hw
+      exact absurd hw (hold it')
+    · split at hs
+      · rename_i it2 hw2
+        simp only [Option.some.injEq] at hs; subst hs
+        simp only at hnew
+        rw [hw2] at hnew
+        simp only [Option.some.injEq, WPc.working.injEq] at hnew
+        subst hnew
+        refine ⟨?_, rfl, rfl, ?_⟩
+        · unfold ctxInUse
+          simp only [hw2]
+          rw [List.getElem?_set]
+          simp [hi]
+        · intro j hj
+          rw [List.getElem?_set]
+          simp [Ne.symm hj]
+      · rename_i hnw
+        simp only [Option.some.injEq] at hs; subst hs
+        exact absurd hnew (hnw it)
+
+/-- **`set_worker_ptr` returns at once and does not disturb a running callback**: at its lock the main thread is
+always enabled; the step stores the pointer and changes nothing else — in particular not the context any running
+callback is using. -/
+theorem set_worker_ptr_returns (cfg : Cfg) (xs : XState) (i p : Nat) (h : xs.setPtr = some (i, p)) :
+    ∃ xs', xstep cfg xs (.base (.main (.cont false))) = some xs' ∧ xs'.setPtr = none ∧
+      xs'.users = xs.users.set i p ∧ xs'.base = xs.base ∧ xs'.log = xs.log ∧ ∀ w, ctxInUse xs' w = ctxInUse xs w := by
+  refine ⟨{ xs with users := xs.users.set i p, setPtr := none }, ?_, rfl, rfl, rfl, rfl, fun w => rfl⟩
+  simp [xstep, h]
+
+/-- **`submit` with a failing `calloc`**: if the `recycle` list is empty the call returns −1 (the `oom` event) and
+nothing else changes — no ticket is consumed, nothing is enqueued, no thread is woken; if `recycle` is not empty
+`calloc` is not called and the call is an ordinary `submit`. -/
+theorem submit_oom (cfg : Cfg) (xs : XState) (d : Nat) (hm : xs.base.main = .idle) (hp : xs.setPtr = none) :
+    (xs.base.recycle = 0 → xstep cfg xs (.submitOom d) = some { xs with log := xs.log ++ [.oom d] }) ∧
+    (xs.base.recycle ≠ 0 → xstep cfg xs (.submitOom d) = xstep cfg xs (.base (.main (.call (.submit d))))) := by
+  constructor
+  · intro h0; simp [xstep, hm, hp, h0]
+  · intro h0; simp [xstep, hm, hp, h0]
+
+/-- **No dead-lock in the extended model** (repaired `dequeue`, at least one worker): whenever the main thread is
+inside a call — `set_worker_ptr` included — some thread can take a strict step that is not a new API call. -/
+theorem x_no_deadlock {cfg : Cfg} {n : Nat} {xs : XState} (hrep : cfg.repaired = true) (hn : 0 < n)
+    (hr : XReachable cfg n xs) (hcall : xmainInCall xs = true) :
+    ∃ bc xs', bc.strict = true ∧ (∀ op, bc ≠ .main (.call op)) ∧ xstep cfg xs (.base bc) = some xs' := by
+  cases hsp : xs.setPtr with
+  | some ip =>
+    obtain ⟨i, p⟩ := ip
+    obtain ⟨xs', h, _⟩ := set_worker_ptr_returns cfg xs i p hsp
+    exact ⟨.main (.cont false), xs', rfl, by intro op; simp, h⟩
+  | none =>
+    have hb : mainInCall xs.base = true := by
+      simpa [xmainInCall, hsp] using hcall
+    obtain ⟨c, s', hc, hs⟩ := no_deadlock hrep hn (x_projects hr) hb
+    unfold stepStrict at hs
+    split at hs
+    · rename_i hstrict
+      cases c with
+      | main mc =>
+        simp only [step] at hs
+        exact ⟨.main mc, { xs with base := s' }, hstrict, hc, by simp [xstep, hsp, hs]⟩
+      | worker i spur =>
+        simp only [step] at hs
+        obtain ⟨xs', hx, _⟩ := xstepWorker_isSome cfg xs i spur hs
+        exact ⟨.worker i spur, xs', hstrict, hc, by simp only [xstep]; exact hx⟩
+    · simp at hs
+
+/-- … as a statement about the `dl=` flag the driver and the harness print -/
+theorem x_no_deadlock_flag {cfg : Cfg} {n : Nat} {xs : XState} (hrep : cfg.repaired = true) (hn : 0 < n)
+    (hr : XReachable cfg n xs) : xisDeadlock xs = false := by
+  cases hsp : xs.setPtr with
+  | some ip => simp [xisDeadlock, xmainContEnabled, hsp]
+  | none =>
+    have := no_deadlock_flag hrep hn (x_projects hr)
+    simpa [xisDeadlock, xmainInCall, xmainContEnabled, hsp, isDeadlock] using this
+
 /-! ### non-vacuity -/
 
 /-- a concrete execution (2 workers, items 7 and 9, worker 1 overtakes worker 0) that reaches a state where
@@ -680,5 +838,23 @@ example :
        .main (.call .dequeue), .main (.cont false), .main (.call .getStatus), .main (.cont false)]
     s.main = .idle ∧ s.calls = [.submit 7, .submit 9, .dequeue, .getStatus] ∧
     s.rets = [.submit 0, .submit 0, .deq (some 7), .status 0] := by decide
+
+/-- the hypotheses of `ctx_exclusive_users` are satisfiable non-trivially: two workers, pointers 11 and 22,
+worker 0 is re-pointed to 33 *while its callback runs* — it keeps using 11, worker 1 uses 22 -/
+example :
+    let cfg : Cfg := ⟨true, fun _ => 0⟩
+    let xs := xrun cfg (xinit 2)
+      [.setPtr 0 11, .base (.main (.cont false)), .setPtr 1 22, .base (.main (.cont false)),
+       .base (.main (.call (.submit 5))), .base (.main (.cont false)),
+       .base (.main (.call (.submit 6))), .base (.main (.cont false)),
+       .base (.worker 0 false), .setPtr 0 33, .base (.worker 1 false), .base (.main (.cont false))]
+    ctxInUse xs 0 = some 11 ∧ ctxInUse xs 1 = some 22 ∧ xs.users = [33, 22] ∧
+    xs.log = [.setPtr 0 11, .setPtr 1 22, .enter 0 11 5, .setPtr 0 33, .enter 1 22 6] := by decide
+
+/-- `submit_oom`: first call on a fresh pool (empty `recycle`) fails and leaves the pool untouched -/
+example :
+    let cfg : Cfg := ⟨true, fun _ => 0⟩
+    let xs := xrun cfg (xinit 1) [.submitOom 4]
+    xs.base = init 1 ∧ xs.log = [.oom 4] := by decide
 
 end Sqfs.C09
